@@ -509,7 +509,7 @@ class LexTables:
             pat = getattr(fn, '__self__', None)
             if not isinstance(pat, re.Pattern) or getattr(fn, '__name__', '') != 'match':
                 raise HarnessError('rule table entry is not <compiled pattern>.match: %r' % (fn,))
-            self.rules.append((pat.pattern, pat.flags & ~re.U.value | re.U.value, action))
+            self.rules.append((pat.pattern, pat.flags, action))
             flagset.add(pat.flags)
         if len(flagset) != 1:
             raise Unsupported(f'mixed flags {flagset}')
@@ -519,6 +519,9 @@ class LexTables:
         self.nlkey = self.ptab.add_item((sc.LITERAL, 10))
         self.spacekey = self.ptab.add_item((sc.IN, [(sc.CATEGORY, sc.CATEGORY_SPACE)]))
         self.progs = [compile_rule(rx, fl, self.ptab) for rx, fl, _ in self.rules]
+        # character classes the reference predicates of the checks name themselves
+        self.tagstart_key = self.ptab.add_item(sp.parse('[_A-ZÀ-Ü]', self.flags)[0])
+        self.digit_key = self.ptab.add_item(sp.parse(r'\d', self.flags)[0])
         self.extra = {}
         for name, rx, fl in extra_patterns:
             self.extra[name] = compile_rule(rx, fl | re.U, self.ptab)
